@@ -201,7 +201,7 @@ def replay(case) -> int:
 def run(tier: str, seed: int) -> int:
     ensure_repo_on_path()
     v = Verdict("C16", tier, seed)
-    plans = [(3, 1, KINDS_QUICK, True), (2, 2, KINDS_QUICK + ["TlmTlm"], False)] if tier == "quick" else [(4, 2, KINDS_QUICK, False), (3, 3, KINDS_FULL, True)]
+    plans = [(3, 1, KINDS_QUICK, True), (2, 2, KINDS_QUICK + ["TlmTlm"], False)] if tier == "quick" else [(4, 2, ["R", "Ra", "Qf", "Tlm"], False), (3, 2, KINDS_FULL, True), (2, 3, KINDS_FULL, True)]
     for leaves, depth, kinds, fit in plans:
         res = run_tlc("Circuit", cfg_text(leaves, depth, kinds), dump=True, timeout=7200, heap="24g")
         try:
